@@ -3,6 +3,8 @@ package exec
 import (
 	"fmt"
 	"path/filepath"
+	"strconv"
+	"strings"
 
 	"gosym/term"
 )
@@ -199,6 +201,27 @@ func init() {
 		var out []Value
 		for _, e := range r[0].(Slice).A {
 			out = append(out, e.(Iface).V.(*Native).Data.(*infoV).name)
+		}
+		return Slice{A: out}
+	})
+	v("SegOffsets", func(ex *Exec, fr *Frame, a []Value) Value {
+		r := ex.fsReadDir(strOf(a[0])).(Tuple)
+		var out []Value
+		for _, e := range r[0].(Slice).A {
+			name := e.(Iface).V.(*Native).Data.(*infoV).name
+			switch n := name.(type) {
+			case string:
+				if len(n) == 24 && strings.HasSuffix(n, ".log") {
+					v, err := strconv.ParseInt(n[:20], 10, 64)
+					if err == nil {
+						out = append(out, mkInt(v))
+					}
+				}
+			case *Rope:
+				if len(n.parts) == 2 && n.parts[0].t != nil && n.parts[1].s == ".log" {
+					out = append(out, n.parts[0].t)
+				}
+			}
 		}
 		return Slice{A: out}
 	})
